@@ -155,7 +155,7 @@ def _rt_grow_list(I, args, kwargs, st):
     st.pc.append(n >= 0)
     add = HSymList(n, lambda I2, st2, idx: Opaque(name), what=name)
     st.heap[lst.oid] = symlist_concat(I, I.hget(st, lst), add, st)
-    return [("val", None, st)]
+    return [("val", n, st)]
 
 
 def _rt_fresh_inst(I, args, kwargs, st):
